@@ -175,6 +175,50 @@ def lay1(ctx, c):
                           repo.loc(fn, call))
             elif kind_ == "enumerate":
                 c.ok("translate_statements:%s" % site_, "the enumerate index of the statement itself", repo.loc(fn, call))
+    # a directive acts on the lines that follow it: a quantity collected over ALL statements ("last one wins") and then applied to every statement makes the bytes of an earlier
+    # statement depend on lines that come after it - appending statements to a program then changes what is already there
+    tl_loops = [(i_, st_) for i_, st_ in enumerate(body) if isinstance(st_, ast.For) and re.fullmatch(r"(enumerate\()?self\.statements\)?", U(st_.iter))]
+    for i1, l1 in tl_loops:
+        collected = {U(t_) for n_ in ast.walk(l1) if isinstance(n_, (ast.Assign, ast.AugAssign)) for t_ in (n_.targets if isinstance(n_, ast.Assign) else [n_.target])
+                     if isinstance(t_, ast.Name)}
+        tgt1 = {x.id for x in ast.walk(l1.target) if isinstance(x, ast.Name)}
+        collected -= tgt1
+        collected = {v_ for v_ in collected if any(isinstance(n_, ast.Assign) and any(U(t_) == v_ for t_ in n_.targets) and re.search(r"\b(%s)\." % "|".join(map(re.escape, tgt1 or {"statement"})), U(n_.value))
+                                                     for n_ in ast.walk(l1))}
+        for i2, l2 in tl_loops:
+            if i2 <= i1:
+                continue
+            tgt2 = {x.id for x in ast.walk(l2.target) if isinstance(x, ast.Name)}
+            uses = [v_ for v_ in collected if any(isinstance(x, ast.Name) and x.id == v_ and isinstance(x.ctx, ast.Load) for x in ast.walk(l2))]
+            writes = [n_ for n_ in ast.walk(l2) if isinstance(n_, ast.Assign) for t_ in n_.targets if isinstance(t_, ast.Attribute) and isinstance(t_.value, ast.Name) and t_.value.id in tgt2
+                      and t_.attr in ("operand", "code_pkg", "instruction", "mnemonic", "original_operand")]
+            if uses and writes:
+                c.finding("translate_statements:whole-program-directive", "`%s`, collected over all statements, rewrites every statement (%s)" % (uses[0], U(writes[0])[:40]),
+                          "translate_statements collects `%s` in a loop over the whole program and a later loop uses it to replace `%s` of each statement: the last occurrence governs the "
+                          "statements BEFORE it too, so appending lines to a program changes the bytes of the lines already there" % (uses[0], U(writes[0].targets[0])), repo.loc(fn, l2))
+    # every statement gets an address, the ones that emit nothing too: labels on them are ordinary labels, and the back-patch reads the address of whatever statement
+    # a label marks
+    for phase_ in ("address assignment", "translation", "symbol resolution", "address fix-up"):
+        if phase_ not in pos or not isinstance(pos[phase_][1], ast.For):
+            continue
+        st_ = pos[phase_][1]
+        skips_ = []
+
+        def scan(stmts, guards):
+            for x in stmts:
+                if isinstance(x, ast.Continue) and guards:
+                    skips_.append(guards[-1])
+                elif isinstance(x, ast.If):
+                    scan(x.body, guards + [x])
+                    scan(x.orelse, guards + [x])
+                elif isinstance(x, ast.Try):
+                    scan(x.body, guards)
+        scan(st_.body, [])
+        skips_ = [g_ for g_ in skips_ if re.search(r"instruction|mnemonic|is_pseudo|operand", U(g_.test))]
+        if skips_:
+            c.finding("translate_statements:%s:skips" % phase_, "the %s pass skips statements (%s)" % (phase_, U(skips_[0].test)[:50]),
+                      "the %s pass does `continue` when `%s`: those statements keep no address / are not translated, so a label on one of them has no value and every operand that "
+                      "names it is emitted without its address bytes" % (phase_, U(skips_[0].test)[:70]), repo.loc(fn, skips_[0]))
     # LAY-2 address pass
     if "address assignment" in pos:
         st = pos["address assignment"][1]
@@ -223,6 +267,15 @@ def lay1(ctx, c):
             else:
                 c.undecided("translate_statements:address-init", "initialisation-not-recognised", U(init)[:60] if init is not None else "", repo.loc(fn, st))
     sa = repo.method("Statement", "set_address")
+    # giving a statement its address does not give it bytes: the fields the image and the listing are made from belong to translate() and the fix-up pass
+    emits_ = [n_ for n_ in ast.walk(sa.node) if isinstance(n_, (ast.Assign, ast.AugAssign)) for t_ in (n_.targets if isinstance(n_, ast.Assign) else [n_.target])
+              if re.fullmatch(r"self\.code_pkg\.(additional|op_code|post_byte|size|max_size)", U(t_))]
+    if emits_:
+        c.finding("Statement.set_address:emits", "the address pass writes %s" % U(emits_[0].targets[0] if isinstance(emits_[0], ast.Assign) else emits_[0].target),
+                  "Statement.set_address does `%s`: a statement acquires bytes (or another size) while addresses are being handed out - ORG and the other directives that emit nothing "
+                  "then contribute to the image, and the sizes the earlier passes agreed on no longer hold" % U(emits_[0])[:70], repo.loc(sa, emits_[0]))
+    else:
+        c.ok("Statement.set_address:emits", "the address pass leaves the emitted fields alone", repo.loc(sa, sa.node))
     guards_sa = [n for n in ast.walk(sa.node) if isinstance(n, ast.If)]
     for gnode in guards_sa:
         t_ = gnode.test
@@ -318,6 +371,25 @@ def lay3(ctx, c):
         c.check(ok, "save_symbol:store(%s)" % U(node.value)[:30], "dominated by `%s in symbol_table -> raise`" % key, "store not dominated by the redefinition check",
                 "Program.save_symbol stores %s without first passing the `label in symbol_table` check: a label defined twice is accepted and the later definition wins"
                 % U(node)[:70], repo.loc(fn, node))
+    # a symbol is its whole name: a key (at the definition, or at the look-up in Value.get_symbol) that is a slice / case-folded / stripped form of the label makes
+    # different labels one symbol, so whether a program assembles depends on how its labels are spelled
+    def coarse_key(f_, key_expr):
+        srcs = [key_expr] + [b_.value for b_ in ast.walk(f_.node) if isinstance(b_, ast.Assign) and any(U(t_) == U(key_expr) for t_ in b_.targets)]
+        return [x for e_ in srcs for x in ast.walk(e_) if (isinstance(x, ast.Subscript) and isinstance(x.slice, ast.Slice))
+                or (isinstance(x, ast.Call) and isinstance(x.func, ast.Attribute) and x.func.attr in ("upper", "lower", "casefold", "strip", "lstrip", "rstrip", "replace", "split", "partition", "title"))]
+    gsm = repo.method("Value", "get_symbol")
+    gs_params = [p_ for p_ in gsm.params if p_ not in ("self", "cls")]
+    sites_ = [(fn, g.nodes[s_][2].targets[0].slice) for s_ in stores]
+    sites_ += [(gsm, x.slice) for x in ast.walk(gsm.node) if isinstance(x, ast.Subscript) and isinstance(x.ctx, ast.Load) and gs_params and U(x.value) == gs_params[-1]]
+    sites_ += [(gsm, x.args[0]) for x in ast.walk(gsm.node) if isinstance(x, ast.Call) and isinstance(x.func, ast.Attribute) and x.func.attr == "get" and x.args and gs_params and U(x.func.value) == gs_params[-1]]
+    ck_ = [(f_, k_, coarse_key(f_, k_)) for f_, k_ in sites_]
+    hit_ = next(((f_, k_, cz) for f_, k_, cz in ck_ if cz), None)
+    if hit_:
+        c.finding("symbol-table:key", "symbols are keyed by %s" % U(hit_[2][0])[:50],
+                  "%s uses `%s` as the symbol-table key: labels that agree in that part of their name are one symbol (a redefinition error, or a reference to the wrong one), so a program "
+                  "that assembles stops assembling - or changes meaning - under a consistent renaming of its labels" % (hit_[0].q, U(hit_[2][0])[:60]), repo.loc(hit_[0], hit_[1]))
+    elif ck_:
+        c.ok("symbol-table:key", "symbols are keyed by their whole name at %d sites" % len(ck_), where)
     # EQU symbols take the operand's value, labels the statement index
     for n in ast.walk(fn.node):
         if isinstance(n, ast.If) and "is_pseudo_define" in U(n.test) and n.orelse:
@@ -772,16 +844,18 @@ def dir1(ctx, c):
                 return st_["self." + meth_[1:]]
             raise _Nl("attribute %s" % meth_[1:])
         return _fml(ctx, cls_, meth_, {k_: v_ for k_, v_ in st_.items() if k_.startswith("self.")}, margs_, mkw_)
+    value_classes = {cn_ for cn_ in repo.classes if cn_.endswith("NumericValue") or cn_ in ("AddressValue",)}
     for cls, w in (("MultiByteValue", 2), ("MultiWordValue", 4)):
         f = repo.method(cls, "__init__", inherited=False)
         bad_, und_ = None, None
-        samples = [("1,2,3", [1, 2, 3]), ("1,-1", [1, -1]), ("-128,127", [-128, 127]), ("$7F,$0A", [0x7F, 0x0A]), ("0,255", [0, 255])]
+        samples = [("1,2,3", [1, 2, 3]), ("1,-1", [1, -1]), ("-128,127", [-128, 127]), ("$7F,$0A", [0x7F, 0x0A]), ("0,255", [0, 255]),
+                   ("34,'',0", [34, 0x27, 0]), ("'A,'.,'?", [0x41, 0x2E, 0x3F]), ("%00000101,$5", [5, 5])]
         if w == 4:
             samples += [("-129,$1234", [-129, 0x1234]), ("-256,-32768", [-256, -32768]), ("65535,256", [65535, 256])]
         for text, vals in samples:
             want_ = [("%%0%dX" % w) % (v_ & ((1 << (4 * w)) - 1)) for v_ in vals]
             try:
-                got_ = _fcl(ctx, cls, {"value": text, "$objcall": ({"NumericValue"}, _objcall)}).get("self.hex_array")
+                got_ = _fcl(ctx, cls, {"value": text, "$objcall": (value_classes, _objcall)}).get("self.hex_array")
             except _Rl as e_:
                 got_ = "rejected (%s)" % e_.name
             except (_Nl, Exception) as e_:
@@ -805,7 +879,8 @@ def dir1(ctx, c):
     from ..consteval import Raised as _Rs2, NotConst as _Ns2
     sv_bad = None
     sv_und = None
-    for text, want in (('"AB"', [0x41, 0x42]), ('" A "', [0x20, 0x41, 0x20]), ("/X/", [0x58]), ('""', []), ("'it''", None), ('"AB', None), ("|a b|", [0x61, 0x20, 0x62])):
+    for text, want in (('"AB"', [0x41, 0x42]), ('" A "', [0x20, 0x41, 0x20]), ("/X/", [0x58]), ('""', []), ("'it''", None), ('"AB', None), ("|a b|", [0x61, 0x20, 0x62]),
+                       ('"A\\nB"', [0x41, 0x5C, 0x6E, 0x42]), ('"\\\\"', [0x5C, 0x5C]), ('"50%"', [0x35, 0x30, 0x25]), ('"{x}"', [0x7B, 0x78, 0x7D])):
         try:
             out_ = _fcs(ctx, "StringValue", {"value": text})
             ha = out_.get("self.hex_array")
@@ -825,10 +900,8 @@ def dir1(ctx, c):
                   "StringValue(%s) holds the bytes %s; the characters between the delimiters are %s (every character counts, leading and trailing blanks too)" % sv_bad, repo.loc(sv, sv.node))
     elif sv_und is None:
         c.ok("StringValue", "delimiters must match; one byte per character between them", repo.loc(sv, sv.node))
-    elif good:
-        c.ok("StringValue", "delimiters must match; one byte per character between them", repo.loc(sv, sv.node))
     else:
-        c.undecided("StringValue", "shape-unknown", "", repo.loc(sv, sv.node))
+        c.undecided("StringValue", "constructor-not-foldable", sv_und, repo.loc(sv, sv.node))
     # DIR-3 FCC reassembly in parse_line
     pl = repo.method("Statement", "parse_line")
     wp = repo.loc(pl, pl.node)
@@ -904,6 +977,29 @@ def dir1(ctx, c):
         defs = [n for n in ast.walk(rs.node) if isinstance(n, ast.If) and "is_pseudo_define" in U(n.test) and any(isinstance(x, ast.Call) and U(x.func).endswith(".resolve") for x in ast.walk(n))]
         fa_ = repo.method("Statement", "fix_addresses")
         unguarded = any(isinstance(n, ast.If) and re.fullmatch(r"self\.operand\.value\.is_address\(\)", U(n.test)) for n in ast.walk(fa_.node))
+        # which directives have their operand resolved: the method evaluated once per pseudo mnemonic with an operand that is a symbol
+        from ..concrete import Obj as _Or, Desc as _Dr, run_concrete as _rcr
+        rows_, _, _m = ctx.instructions()
+        resolved_for, notes_r = [], []
+        for r_ in [x for x in rows_ if x.flags["is_pseudo"]]:
+            ins_ = _Or("Instruction")
+            ins_.attrs.update(dict(r_.flags))
+            ins_.attrs["mnemonic"] = r_.mnemonic
+            val_ = _Or("SymbolValue", label="<symbol operand>")
+            envr = dict(ctx.env)
+            envr.update({"self.instruction": ins_, "self.value": val_, "self.operand_string": "LABEL"})
+            evr, ntr = [], []
+            hooks_r = {("*", pn_): (lambda r, a, _p=pn_: _p == "is_symbol") for pn_ in ("is_symbol", "is_numeric", "is_address", "is_expression", "is_address_expression", "is_none", "is_string", "is_multi_byte", "is_multi_word")}
+            _rcr(body_without_doc(rs.node), envr, evr, ntr, hooks=hooks_r)
+            notes_r += ntr
+            if any(e[0] == "call" and e[2] == "resolve" for e in evr):
+                resolved_for.append(r_.mnemonic)
+        narrow = [m_ for m_ in resolved_for if m_ != "FDB"]
+        if unguarded and narrow and not notes_r and not (defs and set(narrow) <= {"EQU", "SET"}):
+            c.finding("PseudoOperand.resolve_symbols:width", "a label operand of %s becomes a 16-bit address" % ", ".join(narrow[:4]),
+                      "PseudoOperand.resolve_symbols resolves a symbol operand of %s; when the symbol is a label the value becomes an AddressValue, and Statement.fix_addresses replaces the "
+                      "operand of every such statement by the label's two-byte address: `FCB LABEL` reserves one byte and emits two, a directive that emits nothing receives two operand "
+                      "bytes, and every later address moves" % ", ".join(narrow), repo.loc(rs, rs.node))
         if defs and unguarded:
             c.finding("PseudoOperand.resolve_symbols", "an EQU operand that is a label becomes an address value",
                       "PseudoOperand.resolve_symbols resolves the operand of EQU / SET; for `ALIAS EQU LABEL` the value becomes the label's AddressValue, and Statement.fix_addresses "
@@ -1036,6 +1132,18 @@ def inc1(ctx, c):
                 c.finding("process_mnemonics:empty-include", "an inclusion that yields no statements is refused (%s)" % U(n_.test),
                           "process_mnemonics raises when `%s`: a file that holds only comments or blank lines is a legal include that contributes nothing; the program with its lines in "
                           "place assembles" % U(n_.test), repo.loc(fn, n_))
+    # ... and the statements of the file are spliced in as they are: the INCLUDE line contributes nothing of its own (its label, its comment) to them
+    for n_ in ast.walk(loop):
+        if isinstance(n_, (ast.Assign, ast.AugAssign)):
+            for t_ in (n_.targets if isinstance(n_, ast.Assign) else [n_.target]):
+                if isinstance(t_, ast.Attribute):
+                    root_ = t_.value
+                    while isinstance(root_, (ast.Subscript, ast.Attribute)):
+                        root_ = root_.value
+                    if isinstance(root_, ast.Name) and root_.id in rec_vars:
+                        c.finding("process_mnemonics:alters-included", "a statement of the included file is changed (%s)" % U(n_)[:50],
+                                  "process_mnemonics does `%s` on the statements that came out of the included file: the program then differs from the one that has the file's lines in "
+                                  "place of the INCLUDE line (an extra or moved label, another operand)" % U(n_)[:70], repo.loc(fn, n_))
     # the expansion is a fresh recursive parse of the file named by the operand
     t = U(loop)
     src_calls = [n for n in ast.walk(loop) if isinstance(n, ast.Call) and U(n.func) == "SourceFile"]
@@ -1290,7 +1398,32 @@ def txt1(ctx, c):
         if isinstance(a0, ast.Name) and a0.id in opvars and len(all_binds.get(a0.id, [])) > 1:
             others = [b_ for b_ in all_binds[a0.id] if not re.search(r"group\('operands'\)", U(b_.value))]
             blank = [b_ for b_ in others if re.search(r"(^|[ ,(=])(''|\"\")", U(b_.value))]
-            if blank:
+            # text of the comment field that finds its way into the operand (outside the FCC arm, which reassembles its string on purpose)
+            tainted = set()
+            changed_ = True
+            while changed_:
+                changed_ = False
+                for b_ in ast.walk(pl_flat_):
+                    if isinstance(b_, ast.Assign):
+                        src_t = re.search(r"group\('comment'\)", U(b_.value)) or any(isinstance(x, ast.Name) and x.id in tainted for x in ast.walk(b_.value))
+                        if src_t:
+                            for t_ in b_.targets:
+                                for e_ in (t_.elts if isinstance(t_, ast.Tuple) else [t_]):
+                                    if isinstance(e_, ast.Name) and e_.id not in tainted and e_.id != a0.id:
+                                        tainted.add(e_.id)
+                                        changed_ = True
+            def _elt_for(b_, name_):
+                if isinstance(b_.targets[0], ast.Tuple) and isinstance(b_.value, ast.Tuple) and len(b_.targets[0].elts) == len(b_.value.elts):
+                    return next((v_ for e_, v_ in zip(b_.targets[0].elts, b_.value.elts) if isinstance(e_, ast.Name) and e_.id == name_), b_.value)
+                return b_.value
+            leak = [b_ for b_ in others if any(isinstance(x, ast.Name) and x.id in tainted for x in ast.walk(_elt_for(b_, a0.id)))]
+            in_fcc = lambda b_: any(isinstance(i_, ast.If) and "is_string_define" in U(i_.test) and any(x is b_ for s_ in i_.body for x in ast.walk(s_)) for i_ in ast.walk(pl_flat_))
+            leak = [b_ for b_ in leak if not in_fcc(b_)]
+            if leak:
+                c.finding("parse_line:operand-whole", "text of the comment field is appended to the operand (%s)" % U(leak[0])[:50],
+                          "parse_line rebinds the operand text by `%s`, which takes words from the comment field: a comment is then not inert - changing or removing it changes the bytes "
+                          "emitted or whether the line is accepted" % U(leak[0])[:70], repo.loc(pl, call))
+            elif blank:
                 c.finding("parse_line:operand-whole", "the operand field is replaced before it reaches the operand classes (%s)" % U(blank[0])[:50],
                           "parse_line rebinds the operand text by `%s` before Operand.create_from_str sees it: what the source has in the operand column is then not checked against "
                           "the instruction's addressing modes" % U(blank[0])[:70], repo.loc(pl, call))
@@ -1298,6 +1431,17 @@ def txt1(ctx, c):
                 c.undecided("parse_line:operand-whole", "the operand text is rebound on the way", U(others[0])[:80] if others else "", repo.loc(pl, call))
         elif re.search(r"group\('operands'\)", U(a0)) or (isinstance(a0, ast.Name) and a0.id in opvars):
             c.ok("parse_line:operand-whole", "the operand column reaches Operand.create_from_str as matched", repo.loc(pl, call))
+        else:
+            # an operand cut out of the raw line by other means than the line pattern: it ends where that code says, not where every other line's operand ends
+            line_param = [p_ for p_ in pl.params if p_ != "self"][:1]
+            names0 = {x.id for x in ast.walk(a0) if isinstance(x, ast.Name)}
+            srcs0 = [a0] + [b_.value for nm_ in names0 for b_ in all_binds.get(nm_, [])]
+            raw = [e_ for e_ in srcs0 if any(isinstance(x, ast.Name) and x.id in line_param for x in ast.walk(e_)) or re.search(r"\.(end|start|span)\(", U(e_))]
+            in_fcc0 = any(isinstance(i_, ast.If) and "is_string_define" in U(i_.test) and any(x is call for s_ in i_.body for x in ast.walk(s_)) for i_ in ast.walk(pl_flat_))
+            if raw and not in_fcc0:
+                c.finding("parse_line:operand-whole", "an operand is cut out of the raw line (%s)" % U(raw[0])[:50],
+                          "parse_line hands Operand.create_from_str a text taken from the raw line by `%s` instead of the operand field of the line pattern: for that kind of line the "
+                          "operand no longer ends at the first blank, so what every other line treats as a comment becomes part of the operand" % U(raw[0])[:70], repo.loc(pl, call))
     # every character of a source line reaches the line pattern: a line cut at a fixed column loses operand text as soon as more white space pushes it there
     pp = repo.method("Program", "parse")
     for call in [n for n in ast.walk(pp.node) if isinstance(n, ast.Call) and U(n.func) == "Statement" and n.args]:
@@ -1462,7 +1606,7 @@ def dir4(ctx, c):
         tmp = Collector("DIR-1")
         dir1(ctx, tmp)
     for i in tmp.insts:
-        if i.site.startswith("PseudoOperand.__init__:EQU") or i.site.startswith("PseudoOperand.resolve_symbols") or i.site.endswith(":element-type"):
+        if i.site.startswith("PseudoOperand.__init__:EQU") or i.site.startswith("PseudoOperand.resolve_symbols") or i.site.endswith(":element-type") or i.site.endswith(":elements"):
             j = type(i)(*[getattr(i, k) for k in i.__slots__]) if hasattr(i, "__slots__") else i
             c.insts.append(j)
 
